@@ -20,6 +20,7 @@ import (
 	"net"
 	"net/http"
 	"strconv"
+	"strings"
 
 	"github.com/caddyserver/certmagic"
 	"github.com/tmpim/casket"
@@ -217,7 +218,13 @@ func redirPlaintextHost(cfg *SiteConfig) *SiteConfig {
 			if err != nil {
 				requestHost = r.Host // Host did not contain a port, so use the whole value
 			}
+			// an IPv6 literal keeps its brackets only when there was no port to split off;
+			// strip them so that they are put back exactly once below
+			requestHost = strings.TrimSuffix(strings.TrimPrefix(requestHost, "["), "]")
 			if redirPort == "" {
+				if strings.Contains(requestHost, ":") {
+					requestHost = "[" + requestHost + "]"
+				}
 				toURL += requestHost
 			} else {
 				toURL += net.JoinHostPort(requestHost, redirPort)
